@@ -582,11 +582,14 @@ class Inliner:
             has_closure = any(isinstance(x, ast.FunctionDef) and x is not fi.orig for x in ast.walk(fi.orig))
             tabs = self._level_tables(fi)
             uses_table = bool(tabs) and any(isinstance(x, ast.Name) and x.id in tabs for x in ast.walk(fi.orig))
+            uses_table = uses_table or any(isinstance(x, ast.Call) and ((ast.unparse(x.func).split(".")[-1] == "reduce" and len(x.args) == 3)
+                                                                         or (isinstance(x.func, ast.Name) and x.func.id == "map")) for x in ast.walk(fi.orig))
             if not src_has_private and not has_closure and not uses_table:
                 continue
             new = copy.deepcopy(fi.orig)
             before = len(self.inlined)
             unrolled = self._unroll_level_table(new, fi)
+            unrolled = self._unfold_reduce(new) or unrolled
             new.body = self.rewrite_block(new.body, fi, 0)
             if len(self.inlined) > before or unrolled:
                 ast.fix_missing_locations(new)
@@ -1035,6 +1038,75 @@ class Inliner:
         if changed[0]:
             ast.fix_missing_locations(new)
             fi.node = new
+
+    def _unfold_reduce(self, fn: ast.FunctionDef) -> bool:
+        """`acc = reduce(f, xs, init)` with f a lambda or a closure of the function is the left fold it abbreviates:
+        `acc = init` followed by `for x in xs: acc = f(acc, x)` (a lambda is applied in place).  Only with an initialiser, only for a plain
+        name / generator `xs`, and not for library callables such as jnp.kron (those forms are read by the rules as they are)."""
+        closures = {x.name for x in ast.walk(fn) if isinstance(x, ast.FunctionDef) and x is not fn}
+        changed = [False]
+
+        def block(stmts):
+            out = []
+            for st in stmts:
+                for fld in ("body", "orelse", "finalbody"):
+                    sub = getattr(st, fld, None)
+                    if isinstance(sub, list) and sub and isinstance(sub[0], ast.stmt) and not isinstance(st, (ast.FunctionDef, ast.ClassDef)):
+                        setattr(st, fld, block(sub))
+                if isinstance(st, ast.Assign) and len(st.targets) == 1 and isinstance(st.targets[0], (ast.Name, ast.Attribute)) and isinstance(st.value, ast.Call) \
+                        and ast.unparse(st.value.func).split(".")[-1] == "reduce" and len(st.value.args) == 3 and not st.value.keywords:
+                    f, xs, init = st.value.args
+                    store_to = None
+                    if isinstance(st.targets[0], ast.Name):
+                        acc = st.targets[0].id
+                    else:
+                        # `self.state = reduce(…)`: folded in a temporary, stored once at the end (the attribute is written exactly once, as before)
+                        self.counter += 1
+                        acc = f"folded__h{self.counter}"
+                        store_to = st.targets[0]
+                    ok_f = (isinstance(f, ast.Lambda) and len(f.args.args) == 2 and not f.args.vararg and not f.args.kwarg and not f.args.defaults) or (isinstance(f, ast.Name) and f.id in closures)
+                    ok_xs = isinstance(xs, (ast.Name, ast.Attribute)) or (isinstance(xs, ast.GeneratorExp) and len(xs.generators) == 1 and not xs.generators[0].ifs)
+                    if ok_f and ok_xs and not any(isinstance(y, ast.Name) and y.id == acc for y in ast.walk(init)):
+                        self.counter += 1
+                        item = f"item__h{self.counter}"
+                        if isinstance(xs, ast.GeneratorExp):
+                            it, tgt, elt = xs.generators[0].iter, xs.generators[0].target, xs.elt
+                        else:
+                            it, tgt, elt = xs, ast.Name(id=item, ctx=ast.Store()), ast.Name(id=item, ctx=ast.Load())
+                        if isinstance(f, ast.Lambda):
+                            bind = {f.args.args[0].arg: ast.Name(id=acc, ctx=ast.Load()), f.args.args[1].arg: elt}
+                            step = _Subst(bind, {}).visit(copy.deepcopy(f.body))
+                        else:
+                            step = ast.Call(func=f, args=[ast.Name(id=acc, ctx=ast.Load()), elt], keywords=[])
+                        out.append(ast.copy_location(ast.Assign(targets=[ast.Name(id=acc, ctx=ast.Store())], value=init), st))
+                        loop = ast.For(target=tgt, iter=it, body=[ast.copy_location(ast.Assign(targets=[ast.Name(id=acc, ctx=ast.Store())], value=step), st)], orelse=[])
+                        out.append(ast.copy_location(loop, st))
+                        if store_to is not None:
+                            out.append(ast.copy_location(ast.Assign(targets=[store_to], value=ast.Name(id=acc, ctx=ast.Load())), st))
+                        changed[0] = True
+                        continue
+                # probs = list(map(f, xs)) with f a closure:  probs = []; for x in xs: probs.append(f(x))
+                tgt_ = st.targets[0] if isinstance(st, ast.Assign) and len(st.targets) == 1 else (st.target if isinstance(st, ast.AnnAssign) else None)
+                v_ = getattr(st, "value", None)
+                if isinstance(tgt_, ast.Name) and isinstance(v_, ast.Call) and isinstance(v_.func, ast.Name) and v_.func.id == "list" and len(v_.args) == 1 and not v_.keywords \
+                        and isinstance(v_.args[0], ast.Call) and isinstance(v_.args[0].func, ast.Name) and v_.args[0].func.id == "map" and len(v_.args[0].args) == 2 \
+                        and isinstance(v_.args[0].args[0], ast.Name) and v_.args[0].args[0].id in closures and isinstance(v_.args[0].args[1], (ast.Name, ast.Attribute)):
+                    f, xs = v_.args[0].args
+                    self.counter += 1
+                    item = f"item__h{self.counter}"
+                    out.append(ast.copy_location(ast.Assign(targets=[ast.Name(id=tgt_.id, ctx=ast.Store())], value=ast.List(elts=[], ctx=ast.Load())), st))
+                    call = ast.Call(func=ast.Attribute(value=ast.Name(id=tgt_.id, ctx=ast.Load()), attr="append", ctx=ast.Load()),
+                                    args=[ast.Call(func=f, args=[ast.Name(id=item, ctx=ast.Load())], keywords=[])], keywords=[])
+                    loop = ast.For(target=ast.Name(id=item, ctx=ast.Store()), iter=xs, body=[ast.copy_location(ast.Expr(value=call), st)], orelse=[])
+                    out.append(ast.copy_location(loop, st))
+                    changed[0] = True
+                    continue
+                out.append(st)
+            return out
+        fn.body = block(fn.body)
+        if changed[0]:
+            ast.fix_missing_locations(fn)
+        return changed[0]
 
     def _registry_paths(self, fi) -> None:
         """CompositeEnvelope's read-only properties `envelopes`, `state_objs`, `states`, `product_states` return an attribute of the container
